@@ -288,7 +288,7 @@ Proof.
   - apply N.eqb_neq in Ha. destruct (find_scan s c') as [sc|]; [|reflexivity]. cbn [fst]. unfold do_close. cbv zeta.
     set (s1 := set_scans s _).
     assert (find_scan (fold_left (fun s m => upd_mt (mt_drop_iter c) m s) (sc_mems sc) s1) cid = find_scan s cid) as E2.
-    { rewrite (find_scan_scans _ s1) by apply (fold_upd_fields (mt_drop_iter c) (sc_mems sc) s1).
+    { transitivity (find_scan s1 cid); [apply find_scan_scans; apply (fold_upd_fields (mt_drop_iter c) (sc_mems sc) s1)|].
       unfold find_scan, s1. cbn [ms_scans set_scans]. now apply find_scan_filter. }
     destruct (sc_holds sc); [|exact E2].
     rewrite (find_scan_scans _ _ cid (frame_scans _ _ (proj1 (vref_drop_frame _ _)))). exact E2.
@@ -321,3 +321,187 @@ Proof.
     destruct (sc_holds sc); [|exact E2]. rewrite (frame_mem _ _ (proj1 (vref_drop_frame _ _))). exact E2.
 Qed.
 End Frames.
+
+(* ------------------------------------------------------------------------------------------
+   4. the held cursor *)
+(* no write lands in the memtable the cursor was opened on: writes are allowed again once a
+   rollover has swapped that memtable out; the cursor is neither re-opened nor dropped *)
+Fixpoint quietb (cid : N) (memlive : bool) (es : list event) : bool :=
+  match es with
+  | [] => true
+  | e :: r =>
+      match e with
+      | EWrite _ => negb memlive && quietb cid memlive r
+      | ERollover => quietb cid false r
+      | EOpen c0 _ _ => negb (N.eqb c0 cid) && quietb cid memlive r
+      | EClose c0 => negb (N.eqb c0 cid) && quietb cid memlive r
+      | _ => quietb cid memlive r
+      end
+  end.
+
+(* what cursor cid returned, and what the reference cursor over L returns for the same calls *)
+Fixpoint cursor_trace (cid : N) (es : list event) (os : list outcome) : list outcome :=
+  match es, os with
+  | e :: er, o :: or =>
+      (match e with EStep c0 _ => if N.eqb c0 cid then [o] else [] | _ => [] end) ++ cursor_trace cid er or
+  | _, _ => []
+  end.
+Fixpoint ref_trace (L : list entry) (P : Z) (cid : N) (es : list event) : list outcome :=
+  match es with
+  | [] => []
+  | EStep c0 o :: r =>
+      if N.eqb c0 cid then let P' := step (ref L) o P in OObs (observe (ref L) P') :: ref_trace L P' cid r
+      else ref_trace L P cid r
+  | _ :: r => ref_trace L P cid r
+  end.
+
+Lemma event_eq_rollover (e : event) : e = ERollover \/ e <> ERollover.
+Proof. destruct e; (left; reflexivity) || (right; discriminate). Qed.
+
+Definition no_err (o : outcome) : Prop := match o with OErr _ => False | _ => True end.
+
+Section Held.
+Variable c : cfg.
+Hypothesis Hio : cf_iter_owns c = true.
+Hypothesis Hhv : cf_holds_ver c = true.
+Variables (cid : N) (L : list entry).
+
+Definition CI (s : machine) (memlive : bool) (P : Z) : Prop :=
+  Inv s /\ exists sc, find_scan s cid = Some sc /\
+    refines (xcur (cf_fuel c) scan_depth) (sc_x sc) L P /\ xtabs (look_of s) (sc_x sc) /\
+    (memlive = false -> ~ In (ms_mem s) (sc_mems sc)).
+
+Lemma find_put_scan s sc x' : find_scan s cid = Some sc ->
+  find_scan (put_scan cid sc x' s) cid = Some (mkScan cid (sc_t sc) (sc_mems sc) (sc_ver sc) (sc_holds sc) x').
+Proof.
+  unfold find_scan, put_scan. cbn [ms_scans set_scans]. induction (ms_scans s) as [|y r IH]; [discriminate|].
+  cbn [find map]. destruct (N.eqb (sc_id y) cid) eqn:E.
+  - intros _. cbn [sc_id]. now rewrite N.eqb_refl.
+  - rewrite E. exact IH.
+Qed.
+
+Lemma held_step s ml P e : CI s ml P -> no_err (snd (mstep c s e)) ->
+  quietb cid ml [e] = true ->
+  let ml' := match e with ERollover => false | _ => ml end in
+  let P' := match e with EStep c0 o => if N.eqb c0 cid then step (ref L) o P else P | _ => P end in
+  CI (fst (mstep c s e)) ml' P' /\
+  (forall o, e = EStep cid o -> snd (mstep c s e) = OObs (observe (ref L) P')).
+Proof.
+  intros [HI [sc [Hfs [Hr [Ht Hml]]]]] Hne Hq. cbv zeta.
+  destruct (step_inv c Hio Hhv s e HI) as [HI' _].
+  pose proof (find_scan_in s cid sc Hfs) as [Hsc Hid].
+  destruct (b_sc _ _ (i_v _ HI) sc Hsc) as [_ [vo [_ [_ Hxok]]]].
+  assert (forall m, In m (xmems (sc_x sc)) -> In m (sc_mems sc)) as Hsub by (intros m Hm; exact (xok_mems _ _ _ Hxok m Hm)).
+  destruct (about cid e) eqn:Ha.
+  - (* an event of this cursor: by quietb it is a call *)
+    destruct e as [b| |fid|levels|fs|fs|c0 lo hi|c0 o|c0]; cbn [about] in Ha; try discriminate.
+    + cbn [quietb] in Hq. rewrite Ha in Hq. discriminate.
+    + apply N.eqb_eq in Ha. subst c0. rewrite N.eqb_refl. cbn [mstep] in *. rewrite Hfs in *.
+      unfold do_step in *. cbv zeta in *.
+      destruct (freed_any s (xmems (sc_x sc))); [destruct Hne|].
+      rewrite (xtabs_refresh _ _ Ht) in *.
+      set (x' := scan_step (cf_fuel c) o (sc_x sc)) in *.
+      destruct (negb (forallb (openable s) (opened_between (sc_x sc) x'))); [destruct Hne|].
+      cbn [fst snd] in *.
+      pose proof (refines_step _ _ _ _ o Hr) as Hr'. fold (scan_step (cf_fuel c) o (sc_x sc)) in Hr'. fold x' in Hr'.
+      split.
+      * split; [exact HI'|]. eexists. split; [apply find_put_scan; destruct (cf_cache c); exact Hfs|].
+        cbn [sc_x sc_mems]. split; [exact Hr'|]. split.
+        -- apply (xtabs_ext (look_of s)); [intros m _; apply look_of_mts; destruct (cf_cache c); reflexivity|].
+           apply xtabs_closed. exact Ht.
+        -- intros Hf. assert (ms_mem (put_scan cid sc x' (if cf_cache c then set_cache s (opened_between (sc_x sc) x' ++ ms_cache s) else s)) = ms_mem s) as ->
+             by (destruct (cf_cache c); reflexivity). now apply Hml.
+      * intros o0 Eo. injection Eo as <-. f_equal. unfold scan_obs. apply (refines_obs _ _ _ _ Hr').
+    + cbn [quietb] in Hq. rewrite Ha in Hq. discriminate.
+  - (* somebody else's event *)
+    assert (match e with EStep c0 o => if N.eqb c0 cid then step (ref L) o P else P | _ => P end = P) as ->.
+    { destruct e; try reflexivity. cbn [about] in Ha. now rewrite Ha. }
+    split; [|intros o Eo; subst e; cbn [about] in Ha; rewrite N.eqb_refl in Ha; discriminate].
+    split; [exact HI'|]. exists sc. split; [rewrite (scan_frame c s e cid Ha); exact Hfs|]. split; [exact Hr|]. split.
+    + apply (xtabs_ext (look_of s)); [|exact Ht]. intros m Hm. apply look_stable.
+      * apply (a_sc _ (i_a _ HI) sc Hsc). now apply Hsub.
+      * intros b Eb. subst e. cbn [quietb] in Hq. destruct ml; [discriminate|]. intros Em. apply (Hml eq_refl). rewrite <- Em. now apply Hsub.
+    + destruct (event_eq_rollover e) as [Er|Er].
+      * subst e. intros _. cbn [mstep] in *. destruct (ms_imm s); [destruct Hne|]. cbn [fst]. unfold do_rollover. cbv zeta. cbn [ms_mem].
+        intros Hin. destruct (a_sc _ (i_a _ HI) sc Hsc _ Hin) as [y [Hy Hyid]]. pose proof (a_fresh _ (i_a _ HI) y Hy). cbn [upd_mt set_mts ms_next] in Hyid. lia.
+      * rewrite (mem_frame c s e Er). destruct e; try exact Hml; congruence.
+Qed.
+
+Lemma quietb_cons ml e r : quietb cid ml (e :: r) = true ->
+  quietb cid ml [e] = true /\ quietb cid (match e with ERollover => false | _ => ml end) r = true.
+Proof.
+  cbn [quietb]. destruct e; intros H; try (split; [reflexivity|exact H]).
+  - apply andb_prop in H. destruct H as [H1 H2]. rewrite H1. auto.
+  - apply andb_prop in H. destruct H as [H1 H2]. rewrite H1. auto.
+  - apply andb_prop in H. destruct H as [H1 H2]. rewrite H1. auto.
+Qed.
+
+Lemma held_run : forall es s ml P, CI s ml P -> quietb cid ml es = true -> Forall no_err (snd (mrun c s es)) ->
+  cursor_trace cid es (snd (mrun c s es)) = ref_trace L P cid es.
+Proof.
+  induction es as [|e r IH]; intros s ml P HC Hq Hne; [reflexivity|].
+  destruct (quietb_cons ml e r Hq) as [Hq1 Hq2]. cbn [mrun] in *.
+  destruct (mstep c s e) as [s' o] eqn:E.
+  assert (no_err o) as Ho.
+  { destruct o as [|ob|er]; [exact I|exact I|]. cbn [snd] in Hne. inversion Hne; subst. assumption. }
+  pose proof (held_step s ml P e HC) as Hst. rewrite E in Hst. cbn [fst snd] in Hst. destruct (Hst Ho Hq1) as [HC' Hobs].
+  destruct o as [|ob|er]; [| |destruct Ho].
+  - destruct (mrun c s' r) as [s'' os] eqn:Er. cbn [snd] in *. inversion Hne; subst.
+    specialize (IH s' _ _ HC' Hq2). rewrite Er in IH. cbn [snd] in IH. specialize (IH H2).
+    cbn [cursor_trace ref_trace]. destruct e as [b| |fid|levels|fs|fs|c0 lo hi|c0 o|c0]; cbn [app]; try exact IH.
+    destruct (N.eqb c0 cid) eqn:Ec; [|exact IH]. apply N.eqb_eq in Ec. subst c0. specialize (Hobs o eq_refl). discriminate.
+  - destruct (mrun c s' r) as [s'' os] eqn:Er. cbn [snd] in *. inversion Hne; subst.
+    specialize (IH s' _ _ HC' Hq2). rewrite Er in IH. cbn [snd] in IH. specialize (IH H2).
+    cbn [cursor_trace ref_trace]. destruct e as [b| |fid|levels|fs|fs|c0 lo hi|c0 o|c0]; cbn [app]; try exact IH.
+    destruct (N.eqb c0 cid) eqn:Ec; [|exact IH]. apply N.eqb_eq in Ec. subst c0. specialize (Hobs o eq_refl).
+    cbn [app]. rewrite ?N.eqb_refl in *. rewrite Hobs. f_equal. exact IH.
+Qed.
+End Held.
+
+(* ---- opening *)
+Lemma cur_levels_arc_add s v : cur_levels (arc_add v s) = cur_levels s.
+Proof.
+  unfold cur_levels, find_ver, arc_add. cbn [ms_vers ms_cur set_vers].
+  induction (ms_vers s) as [|w r IH]; [reflexivity|]. cbn [map find].
+  destruct (N.eqb (v_id w) v) eqn:E; cbn [v_id]; destruct (N.eqb (v_id w) (ms_cur s)); try reflexivity; exact IH.
+Qed.
+
+Lemma cur_levels_vers s s' : ms_vers s' = ms_vers s -> ms_cur s' = ms_cur s -> cur_levels s' = cur_levels s.
+Proof. intros E1 E2. unfold cur_levels, find_ver. now rewrite E1, E2. Qed.
+
+Lemma open_CI c cid lo hi s : cf_iter_owns c = true -> cf_holds_ver c = true -> Inv s -> find_scan s cid = None ->
+  no_err (snd (mstep c s (EOpen cid lo hi))) ->
+  scan_wf lo hi (map (look_of s) (open_mems s)) (cur_levels s) ->
+  (total_size (map (look_of s) (open_mems s)) (cur_levels s) + 2 <= cf_fuel c)%nat ->
+  CI c cid (scan_list lo hi (ms_vis s) (map (look_of s) (open_mems s)) (cur_levels s)) (fst (mstep c s (EOpen cid lo hi))) true (-1).
+Proof.
+  intros Hio Hhv HI Hfs Hne Hwf Hfu.
+  destruct (step_inv c Hio Hhv s (EOpen cid lo hi) HI) as [HI' _].
+  split; [exact HI'|]. cbn [mstep] in *. rewrite Hfs in *. unfold do_open in *. cbv zeta in *.
+  set (s2 := fold_left (fun s m => upd_mt mt_add_iter m s) (open_mems s) (take_snapshot s)) in *.
+  assert (forall m, look_of s2 m = look_of s m) as Hlook.
+  { intros m. unfold s2. rewrite look_of_fold by (intros y; reflexivity). now apply look_of_mts. }
+  assert (cur_levels s2 = cur_levels s) as Hlv.
+  { transitivity (cur_levels (take_snapshot s)); [|apply cur_levels_arc_add].
+    apply cur_levels_vers; apply (fold_upd_fields mt_add_iter (open_mems s) (take_snapshot s)). }
+  rewrite Hlv in *.
+  assert (map (fun m => (m, look_of s2 m)) (open_mems s) = map (fun m => (m, look_of s m)) (open_mems s)) as Hmap
+    by (apply map_ext; intros m; now rewrite Hlook).
+  rewrite Hmap in *.
+  set (x := scan_new (cf_fuel c) lo hi (ms_vis s) (map (fun m => (m, look_of s m)) (open_mems s)) (cur_levels s)) in *.
+  destruct (freed_any s2 (open_mems s)); [destruct Hne|].
+  destruct (negb (forallb (openable s2) (opened_between (XM (mkM true [])) x))); [destruct Hne|].
+  rewrite Hhv in *. cbn [fst snd] in *.
+  eexists. split.
+  - unfold find_scan. cbn [ms_scans set_scans].
+    assert (ms_scans (if cf_cache c then set_cache s2 (opened_between (XM (mkM true [])) x ++ ms_cache s2) else s2) = ms_scans s) as ->
+      by (destruct (cf_cache c); cbn [ms_scans set_cache]; apply (fold_upd_fields mt_add_iter (open_mems s) (take_snapshot s))).
+    rewrite ProofsLeaf.find_app. unfold find_scan in Hfs. rewrite Hfs. cbn [find sc_id]. rewrite N.eqb_refl. reflexivity.
+  - cbn [sc_x sc_mems]. split; [|split; [|discriminate]].
+    + assert (map snd (map (fun m => (m, look_of s m)) (open_mems s)) = map (look_of s) (open_mems s)) as Hsnd
+        by (rewrite map_map; reflexivity).
+      pose proof (scan_new_refines (cf_fuel c) lo hi (ms_vis s) (map (fun m => (m, look_of s m)) (open_mems s)) (cur_levels s)) as H.
+      rewrite Hsnd in H. exact (H Hwf Hfu).
+    + apply (xtabs_ext (look_of s)); [|apply xtabs_scan_new].
+      intros m _. transitivity (look_of s2 m); [|apply Hlook]. apply look_of_mts. destruct (cf_cache c); reflexivity.
+Qed.
